@@ -121,11 +121,12 @@ def _classify(hid, res, pd, err):
     r = {"status": "undecided", "checks": 0, "failed": 0, "covers": 0, "covers_sat": 0, "failed_checks": [],
          "solver_s": None, "reason": ""}
     if pd:
-        r["checks"] = pd.get("total_properties", 0)
-        r["failed"] = pd.get("failed", 0)
-        r["covers_sat"] = pd.get("satisfied", 0)
-        r["covers"] = pd.get("satisfied", 0) + pd.get("unsatisfiable", 0)
-        r["undetermined"] = pd.get("undetermined", 0)
+        g = lambda k: pd.get(k) or 0
+        r["checks"] = g("total_properties")
+        r["failed"] = g("failed")
+        r["covers_sat"] = g("satisfied")
+        r["covers"] = g("satisfied") + g("unsatisfiable")
+        r["undetermined"] = g("undetermined")
     if res:
         r["solver_s"] = round(res.get("duration_ms", 0) / 1000.0, 2)
         for c in res.get("checks", []):
